@@ -98,9 +98,9 @@ LabVariants ==
      [lab |-> <<>>, num |-> <<NLab("n", <<2>>, <<"u">>)>>],
      [lab |-> <<SLab("k", <<"x">>)>>, num |-> <<NLab("n", <<1>>, <<"u">>)>>]
   >>
-ValsA == IF Tier = "quick" THEN {<<1, 2>>} ELSE {<<1, 2>>, <<-1, 3>>}
-ValsB == IF Tier = "quick" THEN {<<1, 2>>, <<1, -3>>, <<-1, -2>>, <<0, 0>>}
-         ELSE {<<1, 2>>, <<1, -3>>, <<-1, -2>>, <<0, 0>>, <<0, 5>>, <<-1, -3>>}
+\* (the thorough catalogue widens the location pairs, shapes and splits; TLC caps an enumerated set at 10^6 elements)
+ValsA == {<<1, 2>>}
+ValsB == {<<1, 2>>, <<1, -3>>, <<-1, -2>>, <<0, 0>>}
 
 Hdr0 == [period |-> 1, time |-> 0, dur |-> 0, comments |-> <<>>, dflt |-> "", doc |-> "",
          drop |-> "", keep |-> ""]
@@ -111,7 +111,6 @@ Prof(samples, hdr) == [samples |-> samples, hdr |-> hdr]
 LabPairs == {<<1, lb>> : lb \in DOMAIN LabVariants}
             \cup {<<2, lb>> : lb \in {2, 3, 4, 5, 11}}
             \cup {<<6, lb>> : lb \in {6, 7, 8, 9, 10, 11}}
-            \cup (IF Tier = "quick" THEN {} ELSE {<<11, lb>> : lb \in DOMAIN LabVariants})
 Splits == IF Tier = "quick" THEN {1, 2} ELSE {1, 2, 3}
 MkSmp(k, l, v, li) == Smp(Shape(k, l), v, LabVariants[li].lab, LabVariants[li].num)
 PairCasesOf(shapes, bases, variants, valsA, valsB, labPairs, splits) ==
